@@ -1,4 +1,5 @@
 import VtProofs.Codec
+import VtProofs.Dedup
 /-!
 # C04 — recompression changes only the encoding, never the payload
 
@@ -297,6 +298,61 @@ theorem empty_tile_dropped :
 /-- the metadata law on its own: every format's metadata encoding round-trips -/
 theorem meta_roundtrip (K : Codec) (f : Fmt) (d : Comp) (m : Bytes) :
     K.dec (metaComp f d) (K.enc (metaComp f d) m) = some m := K.dec_enc _ _
+
+/-! ### the versatiles block writer (de-duplication below 1000 bytes) is lossless -/
+
+theorem inv_init : Inv { data := [], table := [], ranges := [] } [] where
+  table_ok := by intro e he; simp at he
+  ranges_in := by intro r hr; simp at hr
+  ranges_ok := rfl
+
+/-- **every index entry of a block reads back exactly the blob that was handed to the writer**, for every list of
+    blobs (any repetitions, any sizes around the 1000-byte limit) -/
+theorem writeBlock_lossless (blobs : List Bytes) :
+    (writeBlock blobs).ranges.map (readRange (writeBlock blobs).data) = blobs := by
+  have h0 := inv_init
+  have := (foldl_inv blobs h0).ranges_ok
+  simpa [writeBlock, writeBlockFrom] using this
+
+/-- all index entries lie inside the block's blob area -/
+theorem writeBlock_in_bounds (blobs : List Bytes) :
+    ∀ r ∈ (writeBlock blobs).ranges, r.1 + r.2 ≤ (writeBlock blobs).data.length := by
+  have h0 := inv_init
+  have := (foldl_inv blobs h0).ranges_in
+  simpa [writeBlock, writeBlockFrom] using this
+
+/-- a block placed anywhere in the file: the reader adds the block's offset to the relative range -/
+theorem block_in_file (pre post : Bytes) (blobs : List Bytes) (i : Nat) (h : i < blobs.length) :
+    ∃ r, (writeBlock blobs).ranges[i]? = some r ∧
+      readRange (pre ++ (writeBlock blobs).data ++ post) (pre.length + r.1, r.2) = blobs[i] := by
+  have hl := writeBlock_lossless blobs
+  have hlen : (writeBlock blobs).ranges.length = blobs.length := by
+    have := congrArg List.length hl; simpa using this
+  have hi : i < (writeBlock blobs).ranges.length := by omega
+  refine ⟨(writeBlock blobs).ranges[i], by simp [hi], ?_⟩
+  have hb := writeBlock_in_bounds blobs _ (List.getElem_mem hi)
+  have hr : readRange (writeBlock blobs).data (writeBlock blobs).ranges[i] = blobs[i] := by
+    have := congrArg (fun l => l[i]?) hl
+    simp only [List.getElem?_map, hi, List.getElem?_eq_getElem, h, Option.map_some, Option.some.injEq] at this
+    exact this
+  rw [← hr]
+  unfold readRange
+  simp only [List.append_assoc]
+  rw [List.drop_append, List.drop_eq_nil_of_le (by omega : pre.length ≤ pre.length + _)]
+  simp only [List.nil_append, Nat.add_sub_cancel_left]
+  have h1 : ((writeBlock blobs).ranges[i]).1 ≤ (writeBlock blobs).data.length := by omega
+  rw [List.drop_append_of_le_length h1]
+  have h2 : ((writeBlock blobs).ranges[i]).2 ≤ ((writeBlock blobs).data.drop ((writeBlock blobs).ranges[i]).1).length := by
+    simp; omega
+  rw [List.take_append_of_le_length h2]
+
+/-- why the table must not outlive its block (seeded regression C04-5): a second block that starts with the first
+    block's table records a range that points at other bytes of ITS OWN data -/
+theorem shared_table_breaks :
+    let b1 : List Bytes := [[9, 9, 9], [1, 2]]
+    let b2 : List Bytes := [[5, 5, 5, 5, 5], [1, 2]]
+    let o := writeBlockFrom (writeBlock b1).table b2
+    o.ranges.map (readRange o.data) ≠ b2 := by decide
 
 /-! ### non-vacuity: a codec exists, a valid non-trivial conversion exists -/
 
